@@ -2,6 +2,7 @@ package main
 
 import (
 	"fmt"
+	"go/types"
 	"strings"
 
 	"golang.org/x/tools/go/ssa"
@@ -71,6 +72,9 @@ func (m *Machine) stub(fn *ssa.Function, args []Value) (Value, bool) {
 		return r, true
 	}
 	if r, ok := m.dolevYao(name, fn, args); ok {
+		return r, true
+	}
+	if r, ok := m.syncStub(name, fn, args); ok {
 		return r, true
 	}
 	switch {
@@ -601,4 +605,121 @@ func (m *Machine) errText(v Value) string {
 		}
 	}
 	return "<error>"
+}
+
+// syncStub: the executor runs one goroutine, so locks never block: Lock/Unlock/RLock/RUnlock are no-ops (taking a
+// lock is not reported as a write), sync.Once.Do runs its function the first time per Once object, and the
+// sync/atomic operations on integers are plain loads and stores (stores are writes for the C18 monitor).
+func (m *Machine) syncStub(name string, fn *ssa.Function, args []Value) (Value, bool) {
+	switch name {
+	case "(*sync.Mutex).Lock", "(*sync.Mutex).Unlock", "(*sync.RWMutex).Lock", "(*sync.RWMutex).Unlock",
+		"(*sync.RWMutex).RLock", "(*sync.RWMutex).RUnlock", "(*sync.WaitGroup).Add", "(*sync.WaitGroup).Done", "(*sync.WaitGroup).Wait":
+		return nil, true
+	case "(*sync.Mutex).TryLock", "(*sync.RWMutex).TryLock", "(*sync.RWMutex).TryRLock":
+		return m.tt.Bool(true), true
+	case "(*sync.Once).Do":
+		p, ok := args[0].(Ptr)
+		if !ok || p.isNil() {
+			m.end("gopanic", "sync.Once.Do on nil")
+		}
+		if m.onceDone == nil {
+			m.onceDone = map[*Node]bool{}
+		}
+		key := p.node
+		if n, ok := p.node.elems[p.idx].(*Node); ok {
+			key = n
+		}
+		if !m.onceDone[key] {
+			m.onceDone[key] = true
+			m.noteWrite(p.node, "sync.Once.Do (first call)")
+			if cl, ok := args[1].(*Closure); ok && cl != nil {
+				m.call(cl.fn, nil, cl.env)
+			}
+		}
+		return nil, true
+	}
+	if strings.HasPrefix(name, "(*sync/atomic.") && fn.Signature.Recv() != nil {
+		// typed atomics (atomic.Int64, atomic.Bool, atomic.Pointer[T], atomic.Value): operate on the field "v"
+		p, ok := args[0].(Ptr)
+		if !ok || p.isNil() {
+			m.end("gopanic", "atomic operation on nil")
+		}
+		st, ok := p.node.elems[p.idx].(*Node)
+		if pt, ok2 := fn.Signature.Recv().Type().(*types.Pointer); ok && ok2 {
+			if sst, ok3 := pt.Elem().Underlying().(*types.Struct); ok3 {
+				vi := -1
+				for i := 0; i < sst.NumFields(); i++ {
+					if sst.Field(i).Name() == "v" {
+						vi = i
+					}
+				}
+				if vi >= 0 && vi < len(st.elems) {
+					switch fn.Name() {
+					case "Load":
+						return m.copyVal(st.elems[vi]), true
+					case "Store":
+						m.noteWrite(st, "atomic store")
+						m.assignInto(st, vi, args[1])
+						return nil, true
+					case "Swap":
+						old := m.copyVal(st.elems[vi])
+						m.noteWrite(st, "atomic swap")
+						m.assignInto(st, vi, args[1])
+						return old, true
+					case "Add":
+						if old, ok := st.elems[vi].(*Term); ok {
+							nv := m.tt.Bin("bvadd", old, m.term(args[1]))
+							m.noteWrite(st, "atomic add")
+							st.elems[vi] = nv
+							return nv, true
+						}
+					case "CompareAndSwap":
+						if m.branch(m.valEq(st.elems[vi], args[1])) {
+							m.noteWrite(st, "atomic compare-and-swap")
+							m.assignInto(st, vi, args[2])
+							return m.tt.Bool(true), true
+						}
+						return m.tt.Bool(false), true
+					}
+				}
+			}
+		}
+		return nil, false
+	}
+	if strings.HasPrefix(name, "sync/atomic.") {
+		op := strings.TrimPrefix(name, "sync/atomic.")
+		p, ok := args[0].(Ptr)
+		if !ok || p.isNil() {
+			return nil, false
+		}
+		switch {
+		case strings.HasPrefix(op, "Load"):
+			return m.copyVal(p.node.elems[p.idx]), true
+		case strings.HasPrefix(op, "Store"):
+			m.noteWrite(p.node, "atomic store")
+			m.assignInto(p.node, p.idx, args[1])
+			return nil, true
+		case strings.HasPrefix(op, "Add"):
+			old, ok := p.node.elems[p.idx].(*Term)
+			if !ok {
+				return nil, false
+			}
+			nv := m.tt.Bin("bvadd", old, m.term(args[1]))
+			m.noteWrite(p.node, "atomic add")
+			p.node.elems[p.idx] = nv
+			return nv, true
+		case strings.HasPrefix(op, "CompareAndSwap"):
+			old, ok := p.node.elems[p.idx].(*Term)
+			if !ok {
+				return nil, false
+			}
+			if m.branch(m.tt.Cmp("=", old, m.term(args[1]))) {
+				m.noteWrite(p.node, "atomic compare-and-swap")
+				p.node.elems[p.idx] = args[2]
+				return m.tt.Bool(true), true
+			}
+			return m.tt.Bool(false), true
+		}
+	}
+	return nil, false
 }
